@@ -53,11 +53,41 @@ def schema_arg(cls):
     e = env()
     return {"builtin_meta": "META", "packaged_file": "DEBATE_TRANSCRIPT", "generated": "GEN_S", "generated_warn": "GEN_W", "unknown": "NO_SUCH_SCHEMA",
             "pathlike": "../specs/schemas/gen_s", "lowercase": "gen_s", "frozen_good": e["good"], "frozen_bad_digest": e["bad"],
-            "frozen_malformed": "frozen@sha256:../../gen_s", "latest_missing": "latest"}[cls]
+            "frozen_malformed": "frozen@sha256:../../gen_s", "latest_missing": "latest", "generated_rewritten": "GEN_R", "generated_removed": "GEN_D"}[cls]
 
 
 def block_name(cls):
-    return {"packaged_file": "DEBATE_TRANSCRIPT", "generated": "GEN_S", "generated_warn": "GEN_W", "frozen_good": "GEN_F", "frozen_bad_digest": "GEN_X"}.get(cls, "GEN_S")
+    return {"packaged_file": "DEBATE_TRANSCRIPT", "generated": "GEN_S", "generated_warn": "GEN_W", "frozen_good": "GEN_F", "frozen_bad_digest": "GEN_X",
+            "generated_rewritten": "GEN_R", "generated_removed": "GEN_D"}.get(cls, "GEN_S")
+
+
+PERMISSIVE = ('===GEN_R===\nMETA:\n  TYPE::PROTOCOL_DEFINITION\n  VERSION::"0.1"\n\nPOLICY:\n  VERSION::"1.0"\n  UNKNOWN_FIELDS::IGNORE\n'
+              '  TARGETS::[§SELF]\n\nFIELDS:\n  NAME::["example"∧OPT→§SELF]\n  LEVEL::["low"∧OPT→§SELF]\n===END===\n')
+
+
+def schema_history(scls, first_content):
+    """what the process did with the schema name before the call (classes generated_rewritten / generated_removed)"""
+    from octave_mcp.mcp.validate import ValidateTool
+    d = env()["dir"]
+    if scls == "generated_rewritten":
+        sp = os.path.join(d, "specs", "schemas", "gen_r.oct.md")
+        with open(sp, "w", encoding="utf-8") as f:
+            f.write(PERMISSIVE)
+        run_async(ValidateTool().execute(content=first_content, schema="GEN_R"))
+        with open(sp, "w", encoding="utf-8") as f:
+            f.write(GEN_SCHEMA.replace("GEN_S", "GEN_R"))
+    elif scls == "generated_removed":
+        sp = os.path.join(d, "specs", "schemas", "gen_d.oct.md")
+        with open(sp, "w", encoding="utf-8") as f:
+            f.write(GEN_SCHEMA.replace("GEN_S", "GEN_D"))
+        run_async(ValidateTool().execute(content=first_content, schema="GEN_D"))
+        os.unlink(sp)
+
+
+CHANGES = {  # content class of the RESULT -> (class the file holds before, amendment)
+    "invalid": ("valid", {"META.STATUS": "NONSENSE"}),
+    "valid": ("invalid", {"META.STATUS": "ACTIVE", "META.VERSION": "1.0"}),
+}
 
 
 def content_for(ccls, scls):
@@ -110,7 +140,40 @@ def replay(item):
     content = content_for(ccls, scls)
     obs = {"status": "MISSING", "valid": "-", "nerrors": 0, "has_name": False, "has_version": False, "again": "-", "exit": 9, "raised": "-"}
     try:
-        if tool == "validate":
+        if scls in ("generated_rewritten", "generated_removed"):
+            schema_history(scls, content_for("valid", scls))
+        if tool in ("write_changes", "cli_write_changes"):
+            before_cls, amend = CHANGES[ccls]
+            p = os.path.join(e["dir"], "a%d.oct.md" % os.getpid())
+            with open(p, "w", encoding="utf-8") as f:
+                f.write(content_for(before_cls, "builtin_meta"))
+            if tool == "write_changes":
+                kw = {"target_path": p, "changes": amend, "schema": schema}
+                for f in ("corrections_only", "grammar_hint"):
+                    if f in flags:
+                        kw[f] = True
+                r = run_async(WriteTool().execute(**kw))
+                obs["status"] = status_of(r)
+                obs["nerrors"] = len(r.get("validation_errors") or [])
+                obs["has_name"], obs["has_version"] = "schema_name" in r, "schema_version" in r
+                written = "corrections_only" not in flags and r.get("status") == "success"
+            else:
+                rr = CliRunner().invoke(cli, ["write", p, "--changes", json.dumps(amend), "--schema", schema], catch_exceptions=True)
+                obs["exit"] = int(rr.exit_code)
+                st = None
+                for ln in rr.output.splitlines():
+                    if ln.startswith("validation_status:"):
+                        st = ln.split(":", 1)[1].strip()
+                obs["status"] = st if st is not None else ("UNVALIDATED" if rr.exit_code != 0 else "MISSING")
+                obs["has_name"] = obs["has_version"] = True
+                import re
+                obs["nerrors"] = len(re.findall(r"(?m)^\s+[EW]\d+\w*: ", rr.output)) or (1 if rr.exit_code != 0 else 0)
+                written = rr.exit_code == 0
+            if obs["status"] == "VALIDATED" and written:
+                with open(p, encoding="utf-8") as f:
+                    r2 = run_async(ValidateTool().execute(content=f.read(), schema=schema))
+                obs["again"] = status_of(r2)
+        elif tool == "validate":
             kw = {"content": content, "schema": schema, "profile": prof}
             for f in ("fix", "diff_only", "compact", "grammar_hint", "debug_grammar"):
                 if f in flags:
